@@ -77,7 +77,7 @@ def run(ctx):
     samples += (js.get("samples") or [])[:1]
     # two keys: rename / drop / hooks / JSON documents
     r, beh, n = c01.bfs(ctx, "twokeys", 2, 1, ["g:G1", "g:S1"], 1, ["v:0"], ["p:*"], 1, withhooks=True, two=False,
-                        withjson=True)
+                        withjson=False)
     states += r["distinct"]
     trans += n
     st, js = replay(ctx, beh, "twokeys")
